@@ -37,9 +37,17 @@ import (
 
 type bufConn struct {
 	r *bytes.Reader
+	// onFirstRead, when set, runs inside the first Read before any byte is returned: the connection was
+	// opened when HandleStream was called, the request arrives only now (time may have passed meanwhile).
+	onFirstRead func() []byte
 }
 
 func (c *bufConn) Read(b []byte) (int, error) {
+	if c.onFirstRead != nil {
+		f := c.onFirstRead
+		c.onFirstRead = nil
+		c.r = bytes.NewReader(f())
+	}
 	if c.r.Len() == 0 {
 		return 0, io.EOF
 	}
@@ -104,6 +112,19 @@ func present(s *ss2022.StreamServer, req []byte) error {
 	return err
 }
 
+// presentHeld opens the connection now (HandleStream is called), lets hold pass with nothing sent, and
+// only then delivers the request returned by get.
+func presentHeld(s *ss2022.StreamServer, hold time.Duration, get func() []byte) error {
+	_, err := s.HandleStream(&bufConn{r: bytes.NewReader(nil), onFirstRead: func() []byte {
+		vsched.Advance(hold)
+		return get()
+	}}, zap.NewNop())
+	return err
+}
+
+// holds are the silences of a held connection (around the 30 s window and past the 60 s retention).
+var holds = []time.Duration{29 * time.Second, 31 * time.Second, 61 * time.Second}
+
 // --- histories --------------------------------------------------------------
 
 var advs = []time.Duration{1, time.Second - 1, time.Second, 29 * time.Second, 30 * time.Second, 31 * time.Second, 59 * time.Second, 60*time.Second - 1, 60 * time.Second, 60*time.Second + 1, 61 * time.Second}
@@ -124,6 +145,12 @@ func (a action) String() string {
 		return fmt.Sprintf("AlteredThenKeep(skew%+ds)", skews[a.Arg])
 	case "replay":
 		return fmt.Sprintf("Present(r[-%d])", a.Arg+1)
+	case "heldReplay":
+		return fmt.Sprintf("OpenThenAfter(%v)Present(r[-1])", holds[a.Arg])
+	case "heldStale":
+		return fmt.Sprintf("NewStampedAtOpenSentAfter(%v)", holds[a.Arg])
+	case "heldFresh":
+		return fmt.Sprintf("OpenThenAfter(%v)New", holds[a.Arg])
 	}
 	return fmt.Sprintf("Altered(r[-%d])", a.Arg+1)
 }
@@ -156,8 +183,30 @@ func narrowAlphabet() []action {
 }
 
 var useNarrow bool
+var useHeld bool
+
+// heldAlphabet is the alphabet of the held-connection pass: the connection is opened (HandleStream called)
+// and the request bytes arrive only after a silence.
+func heldAlphabet() []action {
+	idx := func(d time.Duration) int {
+		for i, x := range advs {
+			if x == d {
+				return i
+			}
+		}
+		panic("adv")
+	}
+	out := []action{{"new", 3}, {"alteredFresh", 3}, {"adv", idx(1)}, {"adv", idx(29 * time.Second)}, {"adv", idx(31 * time.Second)}, {"replay", 0}}
+	for h := range holds {
+		out = append(out, action{"heldReplay", h}, action{"heldStale", h}, action{"heldFresh", h})
+	}
+	return out
+}
 
 func alphabet() []action {
+	if useHeld {
+		return heldAlphabet()
+	}
 	if useNarrow {
 		return narrowAlphabet()
 	}
@@ -208,10 +257,23 @@ func runHistory(phase int64, hist []action) (res *histResult, transitions int) {
 		}
 		return fmt.Sprintf("phase=.%09d %s", phase, strings.Join(parts, " "))
 	}
+	var hold time.Duration // silence between opening the connection and the request's arrival (next presentation)
+	var atArrival bool     // the next presentation's request is created when it is sent, not when the connection opens
 	doPresent := func(i int, r *reqRec) *histResult {
 		transitions++
-		now := vsched.Now()
-		err := present(s, r.bytes)
+		var err error
+		if hold > 0 {
+			err = presentHeld(s, hold, func() []byte {
+				if atArrival {
+					*r = *mk(0)
+				}
+				return r.bytes
+			})
+		} else {
+			err = present(s, r.bytes)
+		}
+		hold, atArrival = 0, false
+		now := vsched.Now() // the instant the request arrived and was judged
 		var tsb [8]byte
 		binary.BigEndian.PutUint64(tsb[:], uint64(r.ts))
 		valid := ss2022.ValidateUnixEpochTimestamp(tsb[:], now) == nil
@@ -254,6 +316,21 @@ func runHistory(phase int64, hist []action) (res *histResult, transitions int) {
 				return &histResult{"altered-request-accepted", desc(i) + ": request with a flipped ciphertext bit accepted"}, transitions
 			}
 			reqs = append(reqs, r)
+		case "heldStale", "heldFresh":
+			r := mk(0)
+			reqs = append(reqs, r)
+			hold, atArrival = holds[a.Arg], a.Kind == "heldFresh"
+			if res := doPresent(i, r); res != nil {
+				return res, transitions
+			}
+		case "heldReplay":
+			if len(reqs) == 0 {
+				continue
+			}
+			hold = holds[a.Arg]
+			if res := doPresent(i, reqs[len(reqs)-1]); res != nil {
+				return res, transitions
+			}
 		case "replay", "altered":
 			if len(reqs) <= a.Arg {
 				continue
@@ -328,7 +405,7 @@ func runShard(depth, shard, n int) *shardOut {
 				firstIdx = i
 			}
 			// prune: an action on a request that does not exist yet is a no-op
-			if (a.Kind == "replay" || a.Kind == "altered") && countReqs(hist) <= a.Arg {
+			if ((a.Kind == "replay" || a.Kind == "altered") && countReqs(hist) <= a.Arg) || (a.Kind == "heldReplay" && countReqs(hist) == 0) {
 				out.Pruned++
 				continue
 			}
@@ -350,7 +427,7 @@ func runShard(depth, shard, n int) *shardOut {
 func countReqs(h []action) int {
 	n := 0
 	for _, a := range h {
-		if a.Kind == "new" || a.Kind == "alteredFresh" {
+		if a.Kind == "new" || a.Kind == "alteredFresh" || a.Kind == "heldStale" || a.Kind == "heldFresh" {
 			n++
 		}
 	}
@@ -429,6 +506,10 @@ func main() {
 			useNarrow = true
 			shardFlag = strings.TrimPrefix(shardFlag, "narrow:")
 		}
+		if strings.HasPrefix(shardFlag, "held:") {
+			useHeld = true
+			shardFlag = strings.TrimPrefix(shardFlag, "held:")
+		}
 		fmt.Sscanf(shardFlag, "%d:%d/%d", &depth, &i, &n)
 		out := runShard(depth, i, n)
 		json.NewEncoder(os.Stdout).Encode(out)
@@ -458,14 +539,14 @@ func main() {
 		}
 		os.Exit(0)
 	}
-	c.Rule = "history part: one case = one history over {Adv(d) for 11 boundary durations, New(skew) for 7 client skews, Present(r[-1]), Present(r[-2]), Altered(r[-1]), AlteredThenKeep(skew)} from 3 server clock phases, every step a real HandleStream call on a fresh server per history; all histories to the stated depth (histories that extend a violating prefix are not run). schedule part: one case = one interleaving of k HandleStream calls on the same bytes (+ one different fresh request)."
+	c.Rule = "history part: one case = one history over {Adv(d) for 11 boundary durations, New(skew) for 7 client skews, Present(r[-1]), Present(r[-2]), Altered(r[-1]), AlteredThenKeep(skew)} from 3 server clock phases, every step a real HandleStream call on a fresh server per history; all histories to the stated depth (histories that extend a violating prefix are not run). held pass: the same over an alphabet whose presentations open the connection first (HandleStream is called) and deliver the request only after a silence of 29 s, 31 s or 61 s - a request stamped when the connection opened, one stamped when it is sent, or a copy of the last request; acceptability is judged at the instant the request arrives. schedule part: one case = one interleaving of k HandleStream calls on the same bytes (+ one different fresh request)."
 	c.Assumptions = []string{"time.Now in package ss2022 is the virtual clock (overlay)", "crypto/rand is a reproducible counter stream; padding length fixed to its minimum (irrelevant to the salt pool)", "single-user server, aes-128; the salt pool and timestamp rule do not depend on cipher or EIH"}
 	n := harness.Workers()
 	type pass struct {
 		name  string
 		depth int
 	}
-	passes := []pass{{"wide", harness.Pick(c, 4, 5)}, {"narrow", harness.Pick(c, 7, 8)}}
+	passes := []pass{{"wide", harness.Pick(c, 4, 5)}, {"narrow", harness.Pick(c, 7, 8)}, {"held", harness.Pick(c, 4, 5)}}
 	for _, ps := range passes {
 		outs := make([]*shardOut, n)
 		var wg sync.WaitGroup
@@ -475,8 +556,8 @@ func main() {
 				defer wg.Done()
 				cmd := exec.Command(os.Args[0])
 				pre := ""
-				if ps.name == "narrow" {
-					pre = "narrow:"
+				if ps.name != "wide" {
+					pre = ps.name + ":"
 				}
 				cmd.Env = append(os.Environ(), fmt.Sprintf("C03_SHARD=%s%d:%d/%d", pre, ps.depth, i, n), "C03_TIER="+c.Tier)
 				cmd.Stderr = os.Stderr
@@ -497,7 +578,7 @@ func main() {
 			hist += o.Histories
 			trans += o.Transitions
 			for sig, v := range o.Viol {
-				c.Violation(sig, v.What, map[string]any{"kind": "history", "narrow": ps.name == "narrow", "history": v})
+				c.Violation(sig, v.What, map[string]any{"kind": "history", "narrow": ps.name == "narrow", "pass": ps.name, "history": v})
 			}
 			for _, s := range o.Sample {
 				c.Sample(map[string]any{"history": s, "pass": ps.name})
@@ -507,9 +588,9 @@ func main() {
 		for i := int64(0); i < hist && i < 1_000_000; i++ {
 			c.Distinct(fmt.Sprint(ps.name, i), true)
 		}
-		useNarrow = ps.name == "narrow"
+		useNarrow, useHeld = ps.name == "narrow", ps.name == "held"
 		c.Part("histories-"+ps.name, map[string]any{"depth": ps.depth, "alphabet_size": len(alphabet()), "alphabet": fmt.Sprint(alphabet()), "phases": phases, "histories": hist, "handshakes_presented": trans})
-		useNarrow = false
+		useNarrow, useHeld = false, false
 	}
 	c.Sample(map[string]any{"history": "phase=.500000000 New(skew+30s) Adv(1m0s) New(skew+0s) Present(r[-2])", "meaning": "accept with client 30 s ahead, wait 60 s, a fresh handshake prunes the pool, replay the first"})
 	// concurrent part
